@@ -318,7 +318,33 @@ func doHandshake(x *engine.X, ioc *sonic.IO, ws *websocket.Stream, srv *hsServer
 	return res, herr
 }
 
+// c18Priors: what happened on the same Stream before the handshake under test. Every session that was established is
+// dropped by the application (CloseNextLayer) in a state that leaves something behind in the Stream.
+var c18Priors = []string{
+	"none",
+	"failed (status 400)",
+	"established; one frame read, half a frame left unread; dropped",
+	"established; a ping was read, the server reset the connection, the next read failed (the pong could not be flushed); dropped",
+	"established; a frame with RSV1 was read (error reported, Close 1002 queued), never flushed; dropped",
+	"established; the server reset the connection, a blocking Write failed; dropped",
+}
+
 func c18Body(x *engine.X) { c18BodyOpt(x, false) }
+
+// c18OnlyResumed restricts the body to the conforming response (set by c18ResumedDFS, whose runs are part of the
+// checks of C06 and C17: their own drivers attach the transport directly and never go through Stream.reset()).
+var c18OnlyResumed bool
+
+// c18ResumedDFS: every prior-session shape x blocking/async x 0..2 piggy-backed frames, no cuts: after the second
+// handshake the frames the server sent are read back exactly (inbound side) and the server receives exactly the
+// first message written (outbound side).
+func c18ResumedDFS(tier string) *engine.DFS {
+	return &engine.DFS{Name: "resumed-session@" + tier, Body: func(x *engine.X) {
+		c18OnlyResumed = true
+		defer func() { c18OnlyResumed = false }()
+		c18BodyOpt(x, false)
+	}, Procs: 8, WorkerProcs: 4, GCEvery: 20, ShardDepth: 2, MaxDeviations: 0, MaxPoints: 60, HangTimeout: 60 * time.Second}
+}
 
 // c18BodyOpt with onlyFailing explores just the non-upgrading responses without cuts: the part of the
 // handshake space that C13's "a failed handshake leaves the descriptors as they were" needs.
@@ -335,6 +361,9 @@ func c18BodyOpt(x *engine.X, onlyFailing bool) {
 		f = append(f, vs[0]) // the conforming response, which fails when the server closes early
 		vs = f
 	}
+	if c18OnlyResumed {
+		vs = vs[:1] // the conforming response only: the subject is what an earlier session leaves behind
+	}
 	async := x.Pick(2, "blocking/async handshake") == 1
 	v := vs[x.Pick(len(vs), "response variant")]
 	nfr := 0
@@ -343,7 +372,13 @@ func c18BodyOpt(x *engine.X, onlyFailing bool) {
 	}
 	prior := 0
 	if !onlyFailing {
-		prior = x.Deviate(3, "a preceding handshake on the same stream: none/failed/succeeded then dropped")
+		if v.name == "conforming" {
+			// for the conforming response the history of the stream is a free choice, so that it combines with every
+			// cut, second cut and early close below even at the smallest deviation bound
+			prior = x.Pick(len(c18Priors), "a preceding handshake on the same stream")
+		} else {
+			prior = x.Deviate(len(c18Priors), "a preceding handshake on the same stream")
+		}
 	}
 	ioc, err := sonic.NewIO()
 	if err != nil {
@@ -366,7 +401,16 @@ func c18BodyOpt(x *engine.X, onlyFailing bool) {
 		if prior == 1 {
 			pv = hsVariant{"prior-fail", 400, "", "", [3]int{0, 1, 2}, 0, 0}
 		}
+		x.Note("prior session: %s", c18Priors[prior])
 		pframes := hsFrames(1)
+		switch prior {
+		case 3:
+			pframes = []wsref.Frame{{Fin: true, Op: wsref.OpPing, Payload: []byte("pp")}}
+		case 4:
+			pframes = []wsref.Frame{{Fin: true, Rsv: 4, Op: wsref.OpText, Payload: []byte("x")}}
+		case 5:
+			pframes = nil
+		}
 		if prior == 2 {
 			// the dropped session ends in the middle of a frame: a frame and a half arrive, the application reads
 			// one frame, the rest stays buffered in the stream when the connection goes away
@@ -383,12 +427,40 @@ func c18BodyOpt(x *engine.X, onlyFailing bool) {
 		if (perr == nil) != pv.ok() {
 			x.Inconclusive(fmt.Sprintf("prior handshake outcome %v", perr))
 		}
-		if prior == 2 {
+		switch prior {
+		case 2:
 			// read the complete frame only; the half frame stays behind in the stream's buffer
 			ws.NextFrame()
+		case 3:
+			if f, err := ws.NextFrame(); err != nil || !f.Opcode().IsPing() {
+				x.Inconclusive(fmt.Sprintf("prior session: the ping was not read (%v)", err))
+			}
+			kern.Abort(pres.conn)
+			pres.conn = -1
+			if cfd := ws.NextLayer().RawFd(); cfd >= 0 {
+				kern.AwaitReadReady(cfd, settleGuard) // the reset has arrived
+			}
+			if _, err := ws.NextFrame(); err == nil {
+				x.Inconclusive("prior session: the read after the reset did not fail")
+			}
+		case 4:
+			if _, err := ws.NextFrame(); err == nil {
+				x.Inconclusive("prior session: the RSV1 frame was not reported")
+			}
+		case 5:
+			kern.Abort(pres.conn)
+			pres.conn = -1
+			if cfd := ws.NextLayer().RawFd(); cfd >= 0 {
+				kern.AwaitReadReady(cfd, settleGuard) // the reset has arrived
+			}
+			if err := ws.Write([]byte("stale message of the dropped session"), websocket.TypeText); err == nil {
+				x.Note("prior session: the write after the reset did not fail")
+			}
 		}
 		ws.CloseNextLayer()
-		kern.Abort(pres.conn)
+		if pres.conn >= 0 {
+			kern.Abort(pres.conn)
+		}
 		conns = conns[:0]
 	}
 	sc := hsScript{variant: v, frames: hsFrames(nfr)}
@@ -501,6 +573,56 @@ func c18BodyOpt(x *engine.X, onlyFailing bool) {
 			if calls != 0 {
 				x.Fail("handshake/bytes-invented", "a further frame was delivered although the server sent only %d", len(sc.frames))
 			}
+			// "behaves like a fresh one", outbound side: the first thing the server receives after the request is the
+			// first message the application writes on this session — nothing an earlier session left behind
+			msg := []byte("first message of this session")
+			var werr error
+			if async {
+				wcalls := 0
+				ws.AsyncWrite(msg, websocket.TypeText, func(err error) { wcalls++; werr = err })
+				for k := 0; k < 60 && wcalls == 0; k++ {
+					ioc.RunOneFor(10 * time.Millisecond)
+				}
+				if wcalls != 1 {
+					x.Fail("handshake/session-write/callback-count", "AsyncWrite after the handshake: callback ran %d times", wcalls)
+				}
+			} else {
+				werr = ws.Write(msg, websocket.TypeText)
+			}
+			if werr != nil {
+				x.Fail("handshake/session-write/error", "the first write of the session failed: %v (prior: %s)", werr, c18Priors[prior])
+			}
+			want := 6 + len(msg) // header 2 + mask 4 + payload
+			var got []byte
+			buf := make([]byte, 4096)
+			for len(got) < want && kern.AwaitReadReady(res.conn, settleGuard) {
+				n, err := syscall.Read(res.conn, buf)
+				if err != nil || n <= 0 {
+					break
+				}
+				got = append(got, buf[:n]...)
+			}
+			frames, rest, _ := wsref.ParseAll(got, 1<<20)
+			if len(frames) < 1 || frames[0].Op != wsref.OpText || string(frames[0].Payload) != string(msg) || !frames[0].Masked || len(frames) > 1 || len(rest) > 0 {
+				var desc []string
+				for _, f := range frames {
+					desc = append(desc, fmt.Sprintf("op=%d len=%d %q", f.Op, len(f.Payload), clip(f.Payload)))
+				}
+				sig := "handshake/session-not-fresh/outbound"
+				if len(frames) > 0 {
+					switch frames[0].Op {
+					case wsref.OpPong:
+						sig += "/stale-pong"
+					case wsref.OpClose:
+						sig += "/stale-close"
+					case wsref.OpText, wsref.OpBinary:
+						if string(frames[0].Payload) != string(msg) {
+							sig += "/stale-data"
+						}
+					}
+				}
+				x.Fail(sig, "after the handshake the application wrote one text message; the server received %d bytes: frames [%s] + %d further bytes (prior: %s)", len(got), strings.Join(desc, "; "), len(rest), c18Priors[prior])
+			}
 		}
 		return
 	}
@@ -536,7 +658,7 @@ func C18(tier string) *engine.Report {
 		d.Budget = 25 * time.Minute
 	}
 	tot.Add(d.Run(), rep)
-	tot.Fill(rep, "blocking/async x 50 response variants (full product of status x Upgrade x accept; near misses of the accept value: case-swapped, lower-cased, truncated, suffixed; header orders, letter cases, optional whitespace around the conforming response) x 0/1/2 piggy-backed frames; deviations: every single cut of response+frames, a second cut on a grid of 8, server close after the first segment, a preceding failed / dropped handshake on the same stream; "+
+	tot.Fill(rep, "blocking/async x 50 response variants (full product of status x Upgrade x accept; near misses of the accept value: case-swapped, lower-cased, truncated, suffixed; header orders, letter cases, optional whitespace around the conforming response) x 0/1/2 piggy-backed frames; deviations: every single cut of response+frames, a second cut on a grid of 8, server close after the first segment, a preceding session on the same stream (failed handshake; dropped with half a frame unread / a pong or a Close(1002) queued but never flushed / a failed write), a free choice for the conforming response; after every upgrade the server must receive exactly the first message the application writes; "+
 		"the raw server is lock-stepped with the client through SIOCOUTQ/FIONREAD; every case is a real TCP handshake", d.MaxDeviations)
 	rep.Assumptions = append(rep.Assumptions, "SIOCOUTQ==0 on the server socket and FIONREAD==0 on the client socket mean the client has consumed the segment")
 	return rep
